@@ -153,8 +153,8 @@ class PtrDomain(Domain):
         return [s]
 
 
-def rules(rep, m):
-    cg = m.callgraph()
+def pointer_lifetime(m):
+    """Run the pointer-lifetime domain over every root that touches container storage or pools."""
     eq_grow = m.reaches({"cmb_event_schedule"})
     eq_shuffle = m.reaches({"cmb_event_cancel", "cmb_event_reschedule", "cmb_event_reprioritize", "cmb_event_pattern_cancel",
                             "cmb_event_execute_next"})
@@ -184,6 +184,11 @@ def rules(rep, m):
         roots.append(f)
     for f in sorted(roots, key=lambda x: x.key):
         Flow(m, f, PtrDomain(m, f, eq_grow, eq_shuffle, pool_alloc, out)).run()
+    return out, roots, eq_grow, pool_alloc
+
+
+def rules(rep, m):
+    out, roots, eq_grow, pool_alloc = pointer_lifetime(m)
 
     r1 = rep.rule("R-C10-1", "a pointer obtained from hashheap storage (dequeue / item / peek / &heap[i]) is not dereferenced "
                   "after a call that may insert into, remove from or grow the same container (for the event queue: any call "
